@@ -86,8 +86,8 @@ impl<'a> IParserContext<'a> for Counting<'a> {
         self.inner.set_cache(c, len, r)
     }
     fn clear_cache(&mut self) {
-        self.fold();
-        self.misses.borrow_mut().clear();
+        // the counters are per method body (one `Counting` per body): a clear in the middle of a body
+        // must not hide a second evaluation of the same position
         self.inner.clear_cache()
     }
 }
@@ -128,15 +128,17 @@ pub fn run(words: &[&str]) -> String {
     let (_r3, _s3) = parse_repeat_w_context(&toks, parse_statement_v2, &mut c3);
     c3.fold();
     let worst = *c3.worst.borrow();
+    let total: usize = c3.misses.borrow().values().sum();
     format!(
-        "M={} MD={} MR={} N={} ND={} NR={} W={}",
+        "M={} MD={} MR={} N={} ND={} NR={} W={} E={}",
         stmts_str(&s1),
         diags_str(&d1),
         r1.len(),
         stmts_str(&s2),
         diags_str(&d2),
         r2.len(),
-        worst
+        worst,
+        total
     )
 }
 
